@@ -182,3 +182,28 @@ Proof.
     + rewrite map_length. generalize (spec_csorted false cviews) as L. clear. intros L. generalize 0 as s.
       induction L as [|x t IH]; intros s; simpl; [reflexivity|]. rewrite IH. reflexivity.
 Qed.
+
+(* ---- refusals and selection by track (lifted from find_track to the reader specification) ---- *)
+Lemma spec_read_track_err data track ign_c ign_a ff of parts e :
+  event_parts data = Some parts -> find_track parts track = RErr e -> exists code, spec_read data track ign_c ign_a ff of = RErr code.
+Proof.
+  intros Hp Hf. unfold spec_read. destruct (check_version data) as [u|c]; cbn [bind]; [|eexists; reflexivity].
+  destruct (ok_or (match get "timestamp" data with Some v => as_str v | None => None end) 9) as [ts|c]; cbn [bind]; [|eexists; reflexivity].
+  unfold event_parts in Hp. rewrite Hp. cbn [ok_or bind]. rewrite Hf. cbn [bind]. eexists. reflexivity.
+Qed.
+Lemma spec_read_track_ok data track ign_c ign_a ff of ps cs amb :
+  spec_read data track ign_c ign_a ff of = ROk (ps, cs, amb) ->
+  exists parts p td, event_parts data = Some parts /\ find_track parts track = ROk (p, ra_track amb, td) /\ ra_part amb = p.
+Proof.
+  unfold spec_read. destruct (check_version data) as [u|c]; cbn [bind]; [|discriminate].
+  destruct (ok_or (match get "timestamp" data with Some v => as_str v | None => None end) 9) as [ts|c]; cbn [bind]; [|discriminate].
+  unfold event_parts. destruct (match get "event" data with Some ev => _ | None => None end) as [parts|]; cbn [ok_or bind]; [|discriminate].
+  destruct (find_track parts track) as [[[part_id track_id] td]|c] eqn:Ef; cbn [bind]; [|discriminate].
+  destruct (ok_or (match get "courses" data with Some v => as_object v | None => None end) 11) as [cdata|]; cbn [bind]; [|discriminate].
+  destruct (mapM _ (obj_items cdata)) as [cviews|]; cbn [bind]; [|discriminate].
+  destruct (ok_or (match get "registrations" data with Some v => as_object v | None => None end) 14) as [rdata|]; cbn [bind]; [|discriminate].
+  destruct (mapM _ (obj_items rdata)) as [rviews|]; cbn [bind]; [|discriminate].
+  destruct (ok_or (match get "id" data with Some v => as_u64 v | None => None end) 50) as [eid|]; cbn [bind]; [|discriminate].
+  destruct (ok_or (match get "shortname" td with Some v => as_str v | None => None end) 51) as [sn|]; cbn [bind]; [|discriminate].
+  intros H. inversion H as [[H1 H2 H3]]. exists parts, part_id, td. cbn. split; [reflexivity|]. split; [exact Ef|reflexivity].
+Qed.
